@@ -41,6 +41,14 @@ PROPS = {
             {"engine": "log", "test": "TestVF_C20_Exhaustive", "kind": "plain", "tiers": ["thorough"]},
         ],
     },
+    "C07": {"level": "exploration", "assumptions": BASE_ASSUME + ["the reference detector is an independent implementation of the statement; count-thresh >= 1, gap >= 1, 2*edge < min(w,h)"],
+            "parts": [{"engine": "mp", "test": "TestVF_C07", "quick": (4, 5000), "thorough": (16, 100000)}]},
+    "C08": {"level": "exploration", "assumptions": BASE_ASSUME + ["metamorphic relation over pairs of streams; background and threshold are read in-package after every frame"],
+            "parts": [{"engine": "mp", "test": "TestVF_C08", "quick": (4, 1500), "thorough": (16, 40000)}]},
+    "C09": {"level": "exploration", "assumptions": BASE_ASSUME + ["reading of 'content of any frame from before it': paired histories share the timeline (length, telemetry, resets) and differ only in pixels before the FFC period / reset; dynamic-threshold pairs have no reset before the end of the period (DESIGN.md C09)"],
+            "parts": [{"engine": "mp", "test": "TestVF_C09", "quick": (4, 2500), "thorough": (16, 60000)}]},
+    "C15": {"level": "exploration", "assumptions": BASE_ASSUME + ["background and threshold are read in-package from the detector; threshold tolerance +-1 for float accumulation"],
+            "parts": [{"engine": "mp", "test": "TestVF_C15", "quick": (4, 1500), "thorough": (16, 40000)}]},
     "C12": {"level": "exploration", "assumptions": MP_ASSUME + ["sink faults are injected by call ordinal on mock sinks; the real file recorder's own failure modes are exercised by the e2e checks"],
             "parts": [{"engine": "mp", "test": "TestVF_C12", "quick": (4, 1000), "thorough": (16, 30000)}]},
     "C17": {"level": "exploration", "assumptions": MP_ASSUME,
